@@ -271,7 +271,7 @@ func DupPopulation(t *testing.T) *Population {
 	return dupPop
 }
 
-// BigPopulation returns a process-wide population of 523 accounts in one wallet (three with nested names), used by the
+// BigPopulation returns a process-wide population of 525 accounts in one wallet (three with nested names, two with a blank at one end of another account's name), used by the
 // large-batch checks.  Its fetcher is shared between runs so that accounts are unlocked once.
 func BigPopulation(t *testing.T) *Population {
 	bigPopOnce.Do(func() {
@@ -281,6 +281,8 @@ func BigPopulation(t *testing.T) *Population {
 		}
 		// Account names may contain the path separator: these live beside "Big/V000" and "Big/V001".
 		w.Accounts = append(w.Accounts, "V000/1", "V001/a/b", "V000/2")
+		// ... and names that differ from "V000" and "V001" by a blank at either end
+		w.Accounts = append(w.Accounts, "V000 ", " V001")
 		// ... then a batched wallet (its accounts open with the batch passphrase, the second of the two a default instance is
 		// configured with; they are not opened ahead of time, so each process meets the still-encrypted batch once) and, last, a
 		// share of a threshold key in a distributed wallet (index len-1: runners that want it take it from the end)
